@@ -43,8 +43,46 @@ def run_worker(spec, timeout=300):
         return {"inconclusive": f"unparsable worker output {e}: {p.stdout[:200]!r} {p.stderr[-300:]!r}"}
 
 
+FOREIGN_DUMPER = r"""
+import sys, json, base64, pickle, random
+sys.path.insert(0, sys.argv[1])
+from vmon import boot
+b = boot.boot()
+m = b.measured
+rng = random.Random(int(sys.argv[2]))
+out = []
+P, U, D = m.Prefix, m.Unit, m.Dimension
+for name in sorted(P._by_name):
+    out.append(["prefix", name, P._by_name[name]])
+seen = set()
+for name in sorted(U._by_name):
+    u = U._by_name[name]
+    if id(u) in seen or u is m.One:
+        continue
+    seen.add(id(u))
+    base = len(u.factors) == 1 and next(iter(u.factors)) is u
+    out.append(["base-unit" if base else "unit", u.names[0], u])
+for name in sorted(D._by_name):
+    out.append(["dimension", name, D._by_name[name]])
+for _ in range(40):
+    a, c = rng.choice(out[len(P._by_name):len(P._by_name) + len(seen)])[2], rng.choice(out[len(P._by_name):len(P._by_name) + len(seen)])[2]
+    out.append(["compound", None, a ** rng.choice([2, -1]) * c])
+print(json.dumps([[k, n, base64.b64encode(pickle.dumps(o, rng.choice([2, 4, 5]))).decode()] for k, n, o in out]))
+"""
+
+
+def foreign_objects(ctx):
+    try:
+        p = subprocess.run([sys.executable, "-B", "-c", FOREIGN_DUMPER, core.VERIF, str(ctx.seed)], capture_output=True, text=True, timeout=300, env=synth.child_env())
+        return json.loads(p.stdout)
+    except Exception as e:
+        ctx.count("foreign_object_dumper_failed")
+        return []
+
+
 def run(ctx):
     rng = ctx.rng
+    foreign = foreign_objects(ctx)
     n = ctx.scale(64, 1500)
     steps = 80 if ctx.tier == "quick" else 150
     specs = []
@@ -53,6 +91,7 @@ def run(ctx):
         rng.shuffle(order)
         specs.append({"seed": ctx.seed * 100003 + i, "steps": steps, "modules": "all", "order": order if i % 2 else None,
                       "failpoints": True, "allow_dimension_define": (i % 4 == 3), "lookups_between_imports": (i % 3 != 0), "optimize": (i % 4 == 2),
+                      "foreign_first": (rng.sample(foreign, min(len(foreign), 80)) if (foreign and i % 4 == 1) else None),
                       "force_failpoint_site": "Dimension.scale->conversions.translate" if i == 0 else None})
     with ThreadPoolExecutor(max_workers=14) as ex:
         results = list(ex.map(run_worker, specs))
